@@ -311,6 +311,15 @@ package store
 //@   assert [new-upload-tee]{C01} before call Cache.Set#1: dirUploadInv(bc)
 //@   assert [upload-only-when-writable]{C14} before call Cache.Set#1: fsWritable()
 
+//@ -- C06 (and C10: both stores answer alike): a blob that was deleted is gone for every later look-up.  In a memory store
+//@ -- over a directory the nil entry is what hides the copy in the directory; without a directory the entry is dropped
+//@ func (mr *memRepo) blobDelete(d digest.Digest, locked bool) (err error)
+//@   ensures [deleted-blob-stays-hidden]{C06,C10} err == nil ==> (mr.path != "" ==> (d in mr.blobs) && mr.blobs[d] == nil) && (mr.path == "" ==> !(d in mr.blobs))
+//@ func (mr *memRepo) blobGet(d digest.Digest, locked bool) (rdr io.ReadSeekCloser, err error)
+//@   ensures [hidden-blob-is-not-served]{C06,C10} old((d in mr.blobs) && mr.blobs[d] == nil) ==> err != nil && rdr == nil
+//@ func (mr *memRepo) blobMeta(d digest.Digest, locked bool) (m blobMeta, err error)
+//@   ensures [hidden-blob-has-no-meta]{C06,C10} old((d in mr.blobs) && mr.blobs[d] == nil) ==> err != nil
+
 //@ func (mr *memRepo) blobCreate(locked bool, opts []BlobOpt) (bc BlobCreator, sessionID string, err error)
 //@   assert [new-upload-tee]{C01} before call Cache.Set#1: memUploadInv(bc)
 //@   ensures [exists-refreshes-age]{C05} err == types.ErrBlobExists ==> mr.blobs[conf.expect] != nil && mr.blobs[conf.expect].m.mod >= old(clock())
@@ -332,8 +341,19 @@ package store
 //@ funcs memRepo.*
 //@   fspath [inside-repo-dir]{C16} within(path, recv.path)
 
+//@ -- a repository name with a path component index.json, oci-layout or blobs would live inside another repository's
+//@ -- layout: it is refused before anything is built, registered or created for it (C16).  reservedName is defined by the
+//@ -- outcome of the one check in RepoGet
+//@ ghost func reservedName(s string) bool
 //@ func (d *dir) RepoGet(ctx context.Context, repoStr string) (repo Repo, err error)
 //@   requires [name-safe]{C16} safeRel(repoStr)
+//@   assume [reserved-check] after "stringsHasAny(strings.Split(repoStr": ret <==> reservedName(repoStr)
+//@   assert [reserved-name-never-registered]{C16} before "d.repos.Set(": !reservedName(repoStr)
+//@   -- ... so no repository object with such a name is ever in the store's cache (object invariant of the store: assumed
+//@   -- on entry, re-established here, the only place that adds to the cache), and a cache hit cannot serve one
+//@   requires invariant [no-reserved-name-registered] d.repos != nil && forall key: string :: (key in d.repos.entries) ==> !reservedName(key)
+//@   ensures [no-reserved-name-registered]{C16} uses(call.Cache.Set@1.others-untouched, call.Cache.Get@*, call.New@*, assert.reserved-name-never-registered) forall key: string :: (key in d.repos.entries) ==> !reservedName(key)
+//@   ensures [reserved-name-refused]{C16} reservedName(repoStr) ==> repo == nil && err != nil
 //@   fspath [inside-root]{C16} within(path, d.root)
 //@   assert [repo-dir-inside-root]{C16} before call Cache.Set#1: within(dr#2.path, d.root)
 //@   -- the number of open upload sessions of a repository is bounded (C08): the session cache is built with the configured limit
@@ -490,6 +510,11 @@ package store
 //@   forbid [no-relock-while-locked]{C17} "repo.BlobDelete("
 //@   forbid [no-relock-while-locked]{C17} "repo.BlobGet("
 //@   ensures [already-stored-is-not-a-failure]{C17} err != types.ErrBlobExists
+//@   -- the clean-up after the conversion drops the fallback *tag*: an entry that shares the digest of a converted fallback
+//@   -- index (another tag on the same blob, the regenerated response when it is byte-identical) stays
+//@   -- (RmDesc with digest and tag removes the tag and keeps the digest, C18; what is passed is the fallback entry as it was
+//@   -- collected, annotations included, not just its digest)
+//@   assert [cleanup-drops-the-fallback-tag-only]{C17} before "index.RmDesc(": arg1 == d && arg1.Annotations == d.Annotations
 //@   -- every subject whose response had to be regenerated gets its index entry, also when the response blob was already
 //@   -- there (an interrupted conversion that is repeated): otherwise the fallback tag is dropped and the referrers are lost
 //@   loop 4: invariant [regenerated-responses-registered]{C17,C09} uses(4:regenerated-responses-registered) siteCount(Index.AddDesc, 1) == visitedCount
@@ -498,7 +523,7 @@ package store
 //@ -- handlers acknowledge with 201), leave the blob with an age not older than the start of the call, so the grace
 //@ -- period protects it until the manifest that needs it arrives
 //@ func (mru *memRepoUpload) Close() (err error)
-//@   ensures [ack-is-recent]{C05} err == nil ==> (digestNow(mru.d) in mru.mr.blobs) && mru.mr.blobs[digestNow(mru.d)] != nil &&
+//@   ensures [ack-is-recent]{C05,C01} err == nil ==> (digestNow(mru.d) in mru.mr.blobs) && mru.mr.blobs[digestNow(mru.d)] != nil &&
 //@             mru.mr.blobs[digestNow(mru.d)].m.mod >= old(clock())
 
 //@ -- C06: a repository whose collection fails does not end the pass: inside the loop over the repositories the only
@@ -545,6 +570,16 @@ package store
 //@   requires invariant [uploads-cache] uploadsInv(recv.uploads)
 //@   ensures [uploads-cache-kept]{C20} uploadsInv(recv.uploads)
 
+//@ -- C08: a session that no longer exists (cancelled, finished, expired, evicted) takes no more bytes: every Write looks
+//@ -- the session up first.  This is the per-call reduct of "expiry or cancel racing a write"; the race itself is schedules.
+//@ func (mru *memRepoUpload) Write(p []byte) (n int, err error)
+//@   ensures [gone-session-takes-no-bytes]{C08} !old(mru.sessionID in mru.mr.uploads.entries) ==> err != nil && n == 0
+//@ -- (directory store: a session leaves the cache only through delete(), which also closes the writer: object invariant,
+//@ -- assumed here; with it either guard - the look-up or the closed writer - is enough)
+//@ func (dru *dirRepoUpload) Write(p []byte) (n int, err error)
+//@   requires invariant [open-writer-means-live-session] dru.w != nil ==> (dru.sessionID in dru.dr.uploads.entries)
+//@   ensures [gone-session-takes-no-bytes]{C08} !old(dru.sessionID in dru.dr.uploads.entries) ==> err != nil && n == 0
+
 //@ funcs memRepoUpload.Write memRepoUpload.Close memRepoUpload.Cancel
 //@   requires invariant [uploads-cache] uploadsInv(recv.mr.uploads)
 
@@ -557,6 +592,10 @@ package store
 //@   requires invariant [annotations-owned-by-caller] types.addNoAlias(mr.index, desc)
 
 //@ func (dr *dirRepo) IndexInsert(desc types.Descriptor, opts []types.IndexOpt) (err error)
+//@   -- an index update removes no content: until the new index.json is in place the old one still names what it named
+//@   -- (C09, a crash between the two steps); superseded content is left to the collector
+//@   forbid [index-update-removes-no-content]{C09} "blobDelete("
+//@   forbid [index-update-removes-no-content]{C09} "os.Remove"
 //@   requires [one-kind]{C18} types.tagOf(desc) == "" || types.subjOf(desc) == ""
 //@   ensures [acknowledged-means-saved]{C09,C10,C03} err == nil ==> renamedTo(pathJoin(dr.path, "index.json")) > old(renamedTo(pathJoin(dr.path, "index.json")))
 //@   requires invariant [annotations-owned-by-caller] types.addNoAlias(dr.index, desc)
@@ -572,4 +611,6 @@ package store
 //@   requires invariant [uploads-cache] uploadsInv(recv.uploads)
 
 //@ func (dr *dirRepo) IndexRemove(desc types.Descriptor) (err error)
+//@   forbid [index-update-removes-no-content]{C09} "blobDelete("
+//@   forbid [index-update-removes-no-content]{C09} "os.Remove"
 //@   ensures [acknowledged-means-saved]{C09,C10,C03} err == nil ==> renamedTo(pathJoin(dr.path, "index.json")) > old(renamedTo(pathJoin(dr.path, "index.json")))
